@@ -117,6 +117,10 @@ type vfc14Faulty struct {
 	plan     []vfc14Fault
 	calls    map[string]int
 	injected int
+
+	shapes        *rand.Rand // nil: plain readers only
+	shapedReaders int
+	eofWithData   int
 }
 
 func (b *vfc14Faulty) faults() int { b.mu.Lock(); defer b.mu.Unlock(); return b.injected }
@@ -145,6 +149,85 @@ func (b *vfc14Faulty) errOf(f *vfc14Fault) error {
 		return context.DeadlineExceeded
 	}
 	return vfc14ErrTransient
+}
+
+// vfc14ShapedReader serves the bytes of one honest answer of the wrapped bucket in one of the shapes the
+// io.Reader contract allows: EOF signalled separately or together with the last bytes, tiny reads, a
+// (0, nil) read in between. The bytes are always exactly those of the object.
+type vfc14ShapedReader struct {
+	data      []byte
+	pos       int
+	eofWith   bool // last chunk is returned together with io.EOF
+	maxChunk  int  // 0 = as much as fits
+	zeroEvery int  // every zeroEvery-th call returns (0, nil); 0 = never
+	calls     int
+}
+
+func (r *vfc14ShapedReader) Read(p []byte) (int, error) {
+	if len(p) == 0 {
+		return 0, nil
+	}
+	r.calls++
+	if r.pos >= len(r.data) {
+		return 0, io.EOF
+	}
+	if r.zeroEvery > 0 && r.calls%r.zeroEvery == 0 {
+		return 0, nil
+	}
+	n := len(r.data) - r.pos
+	if n > len(p) {
+		n = len(p)
+	}
+	if r.maxChunk > 0 && n > r.maxChunk {
+		n = r.maxChunk
+	}
+	copy(p, r.data[r.pos:r.pos+n])
+	r.pos += n
+	if r.pos == len(r.data) && r.eofWith {
+		return n, io.EOF
+	}
+	return n, nil
+}
+
+func (r *vfc14ShapedReader) Close() error { return nil }
+
+// shape re-packages a successful answer of the in-memory bucket into a PRNG-chosen reader shape.
+func (b *vfc14Faulty) shape(rc io.ReadCloser, err error) (io.ReadCloser, error) {
+	if err != nil || rc == nil {
+		return rc, err
+	}
+	data, rerr := io.ReadAll(rc)
+	_ = rc.Close()
+	if rerr != nil {
+		return nil, rerr
+	}
+	b.mu.Lock()
+	defer b.mu.Unlock()
+	sr := &vfc14ShapedReader{data: data}
+	if b.shapes == nil {
+		return sr, nil // plain: everything that fits, EOF separately (what InMemBucket does)
+	}
+	switch b.shapes.Intn(6) {
+	case 0: // plain
+	case 1:
+		sr.eofWith = true
+	case 2:
+		sr.maxChunk = 1 + b.shapes.Intn(7)
+	case 3:
+		sr.maxChunk, sr.eofWith = 1+b.shapes.Intn(7), true
+	case 4:
+		sr.zeroEvery, sr.maxChunk = 2+b.shapes.Intn(3), vfkit.Pick(b.shapes, []int{0, 5, 1000})
+	default:
+		sr.maxChunk, sr.eofWith, sr.zeroEvery = vfkit.Pick(b.shapes, []int{0, 3, 100, 4096}), b.shapes.Intn(2) == 0, vfkit.Pick(b.shapes, []int{0, 0, 3})
+	}
+	if sr.maxChunk > 0 && sr.maxChunk < 64 && len(data) > 2000 {
+		sr.maxChunk *= 97 // tiny reads only on small answers (cost); larger answers still need several reads
+	}
+	b.shapedReaders++
+	if sr.eofWith {
+		b.eofWithData++
+	}
+	return sr, nil
 }
 
 type vfc14FailingReader struct {
@@ -189,13 +272,13 @@ func (b *vfc14Faulty) reader(f *vfc14Fault, rc io.ReadCloser, err error) (io.Rea
 
 func (b *vfc14Faulty) Get(ctx context.Context, name string) (io.ReadCloser, error) {
 	f := b.next("Get")
-	rc, err := b.Bucket.Get(ctx, name)
+	rc, err := b.shape(b.Bucket.Get(ctx, name))
 	return b.reader(f, rc, err)
 }
 
 func (b *vfc14Faulty) GetRange(ctx context.Context, name string, off, length int64) (io.ReadCloser, error) {
 	f := b.next("GetRange")
-	rc, err := b.Bucket.GetRange(ctx, name, off, length)
+	rc, err := b.shape(b.Bucket.GetRange(ctx, name, off, length))
 	return b.reader(f, rc, err)
 }
 
@@ -268,17 +351,18 @@ type vfc14Op struct {
 }
 
 type vfc14Cfg struct {
-	Subrange    int64          `json:"subrange_size"`
-	MaxSubReq   int            `json:"max_sub_requests"`
-	MaxGetSize  int            `json:"max_cacheable_get_size"`
-	TTLZero     bool           `json:"ttl_zero"`
-	PDrop       float64        `json:"p_drop_store"`
-	PMiss       float64        `json:"p_miss_present_key"`
-	PEvict      float64        `json:"p_evict_on_fetch"`
-	Objects     map[string]int `json:"object_sizes"`
-	Goroutines  int            `json:"goroutines"`
-	Faults      []vfc14Fault   `json:"wrapped_bucket_fault_plan"`
-	CachedKinds []string       `json:"cached_operations"`
+	Subrange     int64          `json:"subrange_size"`
+	MaxSubReq    int            `json:"max_sub_requests"`
+	MaxGetSize   int            `json:"max_cacheable_get_size"`
+	TTLZero      bool           `json:"ttl_zero"`
+	PDrop        float64        `json:"p_drop_store"`
+	PMiss        float64        `json:"p_miss_present_key"`
+	PEvict       float64        `json:"p_evict_on_fetch"`
+	Objects      map[string]int `json:"object_sizes"`
+	Goroutines   int            `json:"goroutines"`
+	Faults       []vfc14Fault   `json:"wrapped_bucket_fault_plan"`
+	ReaderShapes bool           `json:"wrapped_bucket_reader_shapes_varied"`
+	CachedKinds  []string       `json:"cached_operations"`
 }
 
 func vfc14Content(name string, size int) []byte {
@@ -662,11 +746,12 @@ func TestVF_C14(t *testing.T) {
 	defer r.Finish()
 	r.Rule("case = 1..4 immutable objects (sizes 0..20000, clustered around multiples of the subrange size) in an in-memory bucket + caching configuration (subrange size {1,7,16,1000,16000}, max sub-requests {0..3}, max cacheable Get size, TTLs 1h or 0) " +
 		"(objects at most ~300 subranges long) + lossy cache fake (drops stores, misses present keys, evicts on fetch; never invents data) + history of 1..60 reads (GetRange with offsets/lengths at subrange and object boundaries, zero/-1 length, beyond the end; Get full and partial; Exists; Attributes; Iter flat/recursive; existing and missing names), " +
-		"one quarter of the histories executed by 2..4 goroutines at once; half of the histories additionally carry a fault plan for the wrapped bucket: the k-th (1..4) call of a class (Get, GetRange, Exists, Attributes, Iter) fails once with a transient error, context.Canceled, context.DeadlineExceeded, a reader that fails after N good bytes or a listing that fails after N entries; " +
+		"in three quarters of the histories the readers the wrapped bucket hands out for Get/GetRange vary in shape (EOF separately or together with the last bytes, 1..7-byte reads, (0,nil) reads in between; always the same bytes); one quarter of the histories executed by 2..4 goroutines at once; half of the histories additionally carry a fault plan for the wrapped bucket: the k-th (1..4) call of a class (Get, GetRange, Exists, Attributes, Iter) fails once with a transient error, context.Canceled, context.DeadlineExceeded, a reader that fails after N good bytes or a listing that fails after N entries; " +
 		"oracle = the same call on the never-faulted in-memory bucket (bytes, answers, error class ok/not-found/error); only an operation during which a fault was injected may return an error instead (if it answers, the answer must be right) - every later operation must agree again, fingerprint suffix :after-transient-fault; " +
 		"distinct = hash of configuration+history; non-trivial = the history had at least one cache hit and the wrapped bucket was still asked for a range (mixed service), the cache lost something, or a fault was injected")
 	r.Assume("objects and the set of objects do not change after the first read (premise of the property)")
 	r.Assume("the cache only loses entries; it never returns bytes that were not stored under that key")
+	r.Assume("reader shapes are honest: whatever the chunking and the way EOF is signalled, the bytes are exactly those of the object (io.Reader contract)")
 	r.Assume("injected failures are transient and honest: the failed call returns an error (never wrong data, never a not-found error), the next call of the wrapped bucket works again")
 	r.Assume("offsets are >= 0 (negative offsets are forwarded unchanged to the wrapped bucket)")
 	n := r.N(3000, 120000)
@@ -685,6 +770,9 @@ func TestVF_C14(t *testing.T) {
 		}
 		cfg.Faults = vfc14GenFaults(r.RandS("faults", c))
 		faulty := &vfc14Faulty{Bucket: inmem, plan: cfg.Faults, calls: map[string]int{}}
+		if cfg.ReaderShapes = r.RandS("shapes?", c).Intn(4) != 0; cfg.ReaderShapes {
+			faulty.shapes = r.RandS("shapes", c)
+		}
 		under := &vfc14Counting{Bucket: faulty}
 		cache := &vfc14Cache{rng: r.RandS("cache", c), m: map[string][]byte{}, pDrop: cfg.PDrop, pMiss: cfg.PMiss, pEvict: cfg.PEvict}
 		ttl := time.Hour
@@ -762,6 +850,10 @@ func TestVF_C14(t *testing.T) {
 		if hits > 0 && (gr > 0 || losses > 0 || nf > 0) {
 			r.Distinct(fmt.Sprintf("%v|%v", cfg, streams))
 		}
+		faulty.mu.Lock()
+		r.Count("wrapped_bucket_readers_shaped", faulty.shapedReaders)
+		r.Count("wrapped_bucket_readers_last_chunk_with_eof", faulty.eofWithData)
+		faulty.mu.Unlock()
 		if nf > 0 {
 			r.Count("histories_with_injected_fault", 1)
 			r.Count("faults_injected", nf)
